@@ -19,6 +19,15 @@ OBLIGATIONS = [
     'C18.xAt_mono', 'C18.yAt_mono', 'C18.placement_apart', 'C18.holds_apart_of_placement', 'C18.std_nonneg',
     'C18.ex_check_ok', 'C18.ex_holds', 'C18.ex_wellDriven', 'C18.ex_missing_symbol_rejected', 'C18.ex_wrong_pin_rejected',
     'C18.ex_overlap_rejected', 'C18.ex_broken_chain_rejected', 'C18.ex_foreign_pin_rejected',
+    # columnAssignment (model Schem.Column, stream column-model)
+    'C18.level_pos', 'C18.level_edge', 'C18.acyclic_forward', 'C18.colOf_mono', 'C18.forward_net_goes_right',
+    'C18.net_never_same_column', 'C18.colMatrixFast_eq', 'C18.groups_col0', 'C18.colOf_pos', 'C18.groups_child', 'C18.child_cell', 'C18.colMatrix_cell',
+    # trackAssignment / routeNetSquare (model Schem.Track, stream track-route-model)
+    'C18.track_lt', 'C18.track_eq_iff', 'C18.route_shape', 'C18.route_head', 'C18.route_last', 'C18.mpx_in_channel', 'C18.mpx_inj',
+    # createNets / insertPassthrough / insertFeedback (model Schem.Pass, stream pass-model)
+    'C18.passWire_spec', 'C18.passWire_cells', 'C18.passWire_connected', 'C18.feedWire_spec', 'C18.feedWire_connected',
+    # non-vacuity on the real ModuloCounter
+    'C18.exMC_column', 'C18.exMC_feedback_edge', 'C18.exMC_feedback_is_cycle', 'C18.exMC_pass', 'C18.exMC_passWire_ok', 'C18.ex_tracks',
 ]
 
 # proposals for /verif/known_findings.json (the integrator merges them); applied locally until they are listed there.
@@ -65,10 +74,135 @@ def _alarm(sig, frm):
     raise Timeout()
 
 
-def run_schematic(obj, budget=BUDGET_S):
+class Phases:
+    """snapshots of the real intermediate structures, taken by wrapping the passes placeAndRoute calls (no change to /repo):
+    symbol_matrix right after columnAssignment, nets right after createNets, the order in which the set-valued helpers
+    (getAllInstanceSinks, Intersection) were iterated inside passthroughCreation, objs/matrix/nets right after passthroughCreation"""
+
+    def __init__(self, wid=None):
+        self.snap = {'sink_ord': [], 'wire_ord': []}
+        self.in_pt = False
+        self.pair = None
+        self.wid = wid or {}
+
+    @staticmethod
+    def port_idx(sym, port, out):
+        import py4hw.schematic_symbols as S
+        if port is None or sym is None or getattr(sym, 'obj', None) is None:
+            return -1
+        if isinstance(sym, S.InPortSymbol):
+            return 0 if (out and port is sym.obj) else -1
+        if isinstance(sym, S.OutPortSymbol):
+            return 0 if ((not out) and port is sym.obj) else -1
+        return _idx(sym.obj.outPorts if out else sym.obj.inPorts, port)
+
+    def nets_of(self, s):
+        idx = {}
+        for i, o in enumerate(s.objs):
+            idx.setdefault(id(o), i)
+        return [[self.wid.get(id(n.wire), -1), idx.get(id(n.source), -1), Phases.port_idx(n.source, n.sourcePort, True),
+                 idx.get(id(n.sink), -1), Phases.port_idx(n.sink, n.sinkPort, False)] for n in s.nets]
+
+    @staticmethod
+    def kinds_of(s):
+        import py4hw.schematic_symbols as S
+        out = []
+        for o in s.objs:
+            out.append(0 if isinstance(o, S.PassthroughSymbol) else 1 if isinstance(o, S.FeedbackStartSymbol)
+                       else 2 if isinstance(o, S.FeedbackStopSymbol) else -1)
+        return out
+
+    @staticmethod
+    def mat(s):
+        idx = {}
+        for i, o in enumerate(s.objs):
+            idx.setdefault(id(o), i)
+        nr, nc = s.symbol_matrix.shape
+        return [[(-1 if s.symbol_matrix[r, c] is None else idx.get(id(s.symbol_matrix[r, c]), len(s.objs))) for c in range(nc)]
+                for r in range(nr)]
+
+    def install(self):
+        import py4hw.schematic as M
+        S = M.Schematic
+        self.saved = [(S, 'columnAssignment', S.columnAssignment)]
+        rec = self
+        orig_col = S.columnAssignment
+
+        def columnAssignment(self_, *a, **k):
+            r = orig_col(self_, *a, **k)
+            rec.snap['col_matrix'] = Phases.mat(self_)
+            rec.snap['col_nobjs'] = len(self_.objs)
+            return r
+        S.columnAssignment = columnAssignment
+        orig_cn, orig_pt, orig_gs = S.createNets, S.passthroughCreation, S.getAllInstanceSinks
+        orig_ip, orig_if, orig_int = S.insertPassthrough, S.insertFeedback, M.Intersection
+        self.saved += [(S, 'createNets', orig_cn), (S, 'passthroughCreation', orig_pt), (S, 'getAllInstanceSinks', orig_gs),
+                       (S, 'insertPassthrough', orig_ip), (S, 'insertFeedback', orig_if), (M, 'Intersection', orig_int)]
+
+        def oidx(s_, o):
+            for i, x in enumerate(s_.objs):
+                if x is o:
+                    return i
+            return -1
+
+        def createNets(self_, *a, **k):
+            r = orig_cn(self_, *a, **k)
+            rec.snap['nets0'] = rec.nets_of(self_)
+            rec.snap['mat0'] = Phases.mat(self_)
+            return r
+
+        def passthroughCreation(self_, *a, **k):
+            rec.in_pt = True
+            try:
+                return orig_pt(self_, *a, **k)
+            except Exception as e:
+                rec.snap['pt_exc'] = f'{type(e).__name__}: {str(e)[:80]}'
+                raise
+            finally:
+                rec.in_pt = False
+                rec.snap['pt_kinds'] = Phases.kinds_of(self_)
+                rec.snap['pt_mat'] = Phases.mat(self_)
+                rec.snap['pt_nets'] = rec.nets_of(self_)
+
+        def getAllInstanceSinks(self_, sym):
+            r = orig_gs(self_, sym)
+            if rec.in_pt:
+                rec.snap['sink_ord'].append([oidx(self_, sym)] + [oidx(self_, t) for t in r])
+            return r
+
+        def insertPassthrough(self_, source, sourcecol, sink, sinkcol, *a, **k):
+            rec.pair = (oidx(self_, source), oidx(self_, sink))
+            try:
+                return orig_ip(self_, source, sourcecol, sink, sinkcol, *a, **k)
+            finally:
+                rec.pair = None
+
+        def insertFeedback(self_, source, sourcecol, sink, sinkcol, *a, **k):
+            rec.pair = (oidx(self_, source), oidx(self_, sink))
+            try:
+                return orig_if(self_, source, sourcecol, sink, sinkcol, *a, **k)
+            finally:
+                rec.pair = None
+
+        def Intersection(l1, l2):
+            r = orig_int(l1, l2)
+            if rec.in_pt and rec.pair is not None:
+                rec.snap['wire_ord'].append([rec.pair[0], rec.pair[1]] + [rec.wid.get(id(w), -1) for w in r])
+            return r
+        S.createNets, S.passthroughCreation, S.getAllInstanceSinks = createNets, passthroughCreation, getAllInstanceSinks
+        S.insertPassthrough, S.insertFeedback, M.Intersection = insertPassthrough, insertFeedback, Intersection
+
+    def uninstall(self):
+        for (o, n, f) in self.saved:
+            setattr(o, n, f)
+
+
+def run_schematic(obj, budget=BUDGET_S, phases=None):
     """the real place-and-route, output captured.  -> (schematic|None, error|None, seconds, captured text)"""
     from py4hw.schematic import Schematic
     buf = io.StringIO()
+    if phases is not None:
+        phases.install()
     old = signal.signal(signal.SIGALRM, _alarm)
     signal.setitimer(signal.ITIMER_REAL, budget)
     t0 = time.time()
@@ -83,6 +217,8 @@ def run_schematic(obj, budget=BUDGET_S):
     finally:
         signal.setitimer(signal.ITIMER_REAL, 0)
         signal.signal(signal.SIGALRM, old)
+        if phases is not None:
+            phases.uninstall()
 
 
 def _idx(lst, x):
@@ -174,13 +310,16 @@ def export_layout(s, obj, des):
         else:
             path = []
         nets.append(dict(wire=wid.get(id(n.wire), -1), src=objidx.get(id(n.source), -1), sp=pidx(n.source, n.sourcePort, True),
-                         snk=objidx.get(id(n.sink), -1), tp=pidx(n.sink, n.sinkPort, False), path=path))
+                         snk=objidx.get(id(n.sink), -1), tp=pidx(n.sink, n.sinkPort, False), path=path,
+                         track=getattr(n, 'track', None)))
     tracks = []
     fbt = 0
+    srcw = []
     for ch in s.channels:
+        srcw.append(ch.get('sourcewidth'))
         tracks.append(int(ch.get('tracks', 0)))
         fbt += int(ch.get('feedback_tracks', 0) or 0)
-    return dict(syms=syms, mat=mat, nets=nets, tracks=tracks, feedback_tracks=fbt)
+    return dict(syms=syms, mat=mat, nets=nets, tracks=tracks, feedback_tracks=fbt, sourcewidth=srcw)
 
 
 def _lead(l):
@@ -221,6 +360,41 @@ def encode_place(L, consts):
                 cells.append('_')
         rows.append(','.join(cells))
     return ' | '.join(['place', ','.join(str(c) for c in consts), ','.join(str(t) for t in L['tracks']), ';'.join(rows)])
+
+
+def track_request(L):
+    """what trackAssignment reads: per net the wire, the cell of the source symbol, the row of the sink symbol"""
+    out = []
+    for n in L['nets']:
+        if not (0 <= n['src'] < len(L['syms']) and 0 <= n['snk'] < len(L['syms'])) or n['wire'] < 0:
+            return None
+        a, b = L['syms'][n['src']]['cell'], L['syms'][n['snk']]['cell']
+        if a is None or b is None:
+            return None
+        out.append(f"{n['wire']},{a[0]},{a[1]},{b[0]}")
+    nc = len(L['mat'][0]) if L['mat'] else 0
+    return f"trk | {nc} | {';'.join(out)}"
+
+
+def route_request(L, consts):
+    """what routeNetSquare reads: kind of the ends, the two pin positions, x of the source symbol, width of its column, the track"""
+    out, idxs = [], []
+    for i, n in enumerate(L['nets']):
+        if not n['path'] or n['track'] is None or not (0 <= n['src'] < len(L['syms']) and 0 <= n['snk'] < len(L['syms'])):
+            continue
+        S, T = L['syms'][n['src']], L['syms'][n['snk']]
+        if S['cell'] is None or S['cell'][1] >= len(L['sourcewidth']) or L['sourcewidth'][S['cell'][1]] is None:
+            continue
+        op = S['opins'][0] if S['kind'] in (3, 4, 5) and S['opins'] else (S['opins'][n['sp']] if 0 <= n['sp'] < len(S['opins']) else None)
+        ip = T['ipins'][0] if T['kind'] in (3, 4, 5) and T['ipins'] else (T['ipins'][n['tp']] if 0 <= n['tp'] < len(T['ipins']) else None)
+        if op is None or ip is None:
+            continue
+        kind = 0 if S['kind'] == 5 else (1 if T['kind'] == 4 else 2)
+        out.append(f"{kind},{op[0]},{op[1]},{ip[0]},{ip[1]},{S['x']},{int(L['sourcewidth'][S['cell'][1]])},{int(n['track'])}")
+        idxs.append(i)
+    if not out:
+        return None, []
+    return f"rt | {','.join(str(c) for c in consts)} | {';'.join(out)}", idxs
 
 
 def features(des):
@@ -307,7 +481,8 @@ class Batch:
                 res.hist('skipped_after_3_timeouts', stream)
                 continue
             budget = BUDGET_S + len(des['insts']) ** 2 / 1000.0
-            s, err, secs, out = run_schematic(blk, budget)
+            ph = Phases(des['_wid'])
+            s, err, secs, out = run_schematic(blk, budget, ph)
             if s is None and err.startswith('no result within'):
                 self.timeouts += 1
             self.tmax = max(self.tmax, secs)
@@ -345,31 +520,163 @@ class Batch:
                 if l.startswith('WARNING') and 'no source for sink' not in l:
                     res.hist('pnr_warnings', l[:40])
             self.items.append(dict(spec=sp, des=des, L=L, abort=abort, seconds=secs, stream=stream, feat=feat, block=type(blk).__name__,
-                                   premise_expected=premise_expected))
+                                   premise_expected=premise_expected, snap=ph.snap,
+                                   pnr_warn=' '.join(l[:60] for l in out.split('\n') if l.startswith('WARNING')), premise=None))
         return top
 
     def run(self):
         res = self.res
         if not self.items:
             return
-        lines = []
-        for it in self.items:
-            lines.append(encode_chk(it['des'], it['L']))
-            lines.append(encode_place(it['L'], self.consts))
+        lines, owner = [], []
+        for n, it in enumerate(self.items):
+            for tag, line in self.requests(it):
+                lines.append(line)
+                owner.append((n, tag))
         try:
             ans = run_driver('Drv/C18.lean', lines)
         except ToolFailure as e:
             res.broken.append(('correspondence', 'layout-checker', f'driver failed: {str(e)[:300]}'))
             # the oracle must still run: fall back to one driver call per design so that one bad line cannot hide the others
             ans = []
-            for i in range(0, len(lines), 2):
+            n0 = 0
+            while n0 < len(lines):
+                n1 = n0
+                while n1 < len(lines) and owner[n1][0] == owner[n0][0]:
+                    n1 += 1
                 try:
-                    ans += run_driver('Drv/C18.lean', lines[i:i + 2])
+                    ans += run_driver('Drv/C18.lean', lines[n0:n1])
                 except ToolFailure:
-                    ans += ['tool', 'tool']
-        for it, a_chk, a_place in zip(self.items, ans[0::2], ans[1::2]):
-            self.judge(it, a_chk, a_place)
+                    ans += ['tool'] * (n1 - n0)
+                n0 = n1
+        per = {}
+        for (n, tag), a in zip(owner, ans):
+            per.setdefault(n, {})[tag] = a
+        for n, it in enumerate(self.items):
+            A = per.get(n, {})
+            self.judge(it, A.get('chk', 'tool'), A.get('place', 'tool'))
+            self.judge_phases(it, A)
+            self.judge_tracks(it, A)
+            self.judge_pass(it, A)
         self.items = []
+
+    def requests(self, it):
+        des, L = it['des'], it['L']
+        reqs = [('chk', encode_chk(des, L)), ('place', encode_place(L, self.consts))]
+        dline = ' | '.join([';'.join(_lead(i['ins']) for i in des['insts']), ';'.join(_lead(i['outs']) for i in des['insts']),
+                            ','.join(str(x) for x in des['inp']), ','.join(str(x) for x in des['outp'])])
+        reqs.append(('col', 'col | ' + dline))
+        snap = it['snap']
+        so = ';'.join(','.join(str(v) for v in e) for e in snap.get('sink_ord', []))
+        wo = ';'.join(','.join(str(v) for v in e) for e in snap.get('wire_ord', []))
+        if all(v >= 0 for e in snap.get('sink_ord', []) + snap.get('wire_ord', []) for v in e):
+            reqs.append(('pt', 'pt | ' + dline + ' | ' + so + ' | ' + wo))
+        tr = track_request(L)
+        if tr is not None:
+            reqs.append(('trk', tr))
+        rt, it['rt_nets'] = route_request(L, self.consts)
+        if rt is not None:
+            reqs.append(('rt', rt))
+        return reqs
+
+    def judge_phases(self, it, A):
+        """models of the passes vs the real intermediate structures"""
+        res, sp, snap, des = self.res, it['spec'], it['snap'], it['des']
+        # --- columnAssignment
+        a = A.get('col', 'tool')
+        f = [x.strip() for x in a.split('|')]
+        if len(f) != 2:
+            res.broken.append(('correspondence', 'column-model', f'unexpected answer {a[:80]!r}'))
+        elif 'col_matrix' not in snap:
+            res.disagree('column-model', dict(spec=sp, what='columnAssignment was not called by placeAndRoute'))
+        else:
+            model = [[int(v) for v in row.split(',') if v.strip()] for row in f[1].split(';')] if f[1] else []
+            real = snap['col_matrix']
+            nexp = len(des['inp']) + len(des['insts']) + len(des['outp'])
+            res.cov['column_matrices_compared'] = res.cov.get('column_matrices_compared', 0) + 1
+            if snap.get('col_nobjs') != nexp or model != real:
+                res.disagree('column-model', dict(spec=sp, real=real[:6], model=model[:6], nobjs=[snap.get('col_nobjs'), nexp]))
+            lv = [int(v) for v in f[0].split(',') if v.strip()]
+            if lv:
+                res.hist('max_level', min(max(lv), 20))
+
+    def judge_pass(self, it, A):
+        """createNets and passthroughCreation: model vs the real structures right after each pass"""
+        res, sp, snap = self.res, it['spec'], it['snap']
+        if 'pt' not in A:
+            res.hist('pass_model_skipped', it['stream'])
+            return
+        f = [x.strip() for x in A['pt'].split('|')]
+        if len(f) != 6:
+            res.broken.append(('correspondence', 'pass-model', f"unexpected answer {A['pt'][:80]!r}"))
+            return
+
+        def lists(t):
+            return [[int(v) for v in row.split(',') if v.strip()] for row in t.split(';')] if t else []
+        status, okk, n0 = f[0], f[1], f[2]
+        if it['premise'] is False:
+            res.hist('pass_model', 'outside premise (MissingConnectionSymbol): not compared')
+            return
+        res.cov['pass_models_compared'] = res.cov.get('pass_models_compared', 0) + 1
+        if okk != '1':
+            res.disagree('pass-model', dict(spec=sp, what='a recorded iteration order is not a permutation of the set the model computes',
+                                            sink_ord=snap['sink_ord'][:6], wire_ord=snap['wire_ord'][:6]))
+            return
+        if 'nets0' not in snap or n0 == 'err' or lists(n0) != snap['nets0']:
+            res.disagree('pass-model', dict(spec=sp, what='createNets', model=n0[:200], real=str(snap.get('nets0'))[:200]))
+            return
+        real_abort = snap.get('pt_exc') or ('passthrough' in it['pnr_warn'])
+        if status.startswith('err'):
+            res.hist('pass_model', status)
+            if not real_abort:
+                res.disagree('pass-model', dict(spec=sp, what=f'model raises {status}, the real passthroughCreation did not'))
+            return
+        res.hist('pass_model', 'ok')
+        if real_abort:
+            res.disagree('pass-model', dict(spec=sp, what='the real passthroughCreation aborted, the model did not', abort=it['abort']))
+            return
+        nb = len(it['des']['inp']) + len(it['des']['insts']) + len(it['des']['outp'])
+        mk = [int(v) for v in f[3].split(',') if v.strip()]
+        if mk != snap['pt_kinds'][nb:] or any(k != -1 for k in snap['pt_kinds'][:nb]):
+            res.disagree('pass-model', dict(spec=sp, what='markers', model=mk[:20], real=snap['pt_kinds'][nb:][:20]))
+        elif lists(f[4]) != snap['pt_mat']:
+            res.disagree('pass-model', dict(spec=sp, what='symbol_matrix after passthroughCreation', model=lists(f[4])[:8], real=snap['pt_mat'][:8]))
+        elif lists(f[5]) != snap['pt_nets']:
+            m, r = lists(f[5]), snap['pt_nets']
+            bad = [i for i in range(min(len(m), len(r))) if m[i] != r[i]][:3]
+            res.disagree('pass-model', dict(spec=sp, what='nets after passthroughCreation', lens=[len(m), len(r)], first_bad=bad,
+                                            model=[m[i] for i in bad], real=[r[i] for i in bad]))
+
+    def judge_tracks(self, it, A):
+        res, sp, L = self.res, it['spec'], it['L']
+        if 'trk' in A:
+            f = [x.strip() for x in A['trk'].split('|')]
+            if len(f) != 2:
+                res.broken.append(('correspondence', 'track-route-model', f"unexpected answer {A['trk'][:80]!r}"))
+            else:
+                mt = [int(v) for v in f[0].split(',') if v.strip()]
+                mc = [int(v) for v in f[1].split(',') if v.strip()]
+                rt_ = [(-1 if n['track'] is None else int(n['track'])) for n in L['nets']]
+                res.cov['tracks_compared'] = res.cov.get('tracks_compared', 0) + len(rt_)
+                if mt != rt_ or mc != L['tracks']:
+                    bad = [i for i, (a, b) in enumerate(zip(mt, rt_)) if a != b][:5]
+                    res.disagree('track-route-model', dict(spec=sp, what='tracks', first_bad_nets=bad, model=[mt[i] for i in bad],
+                                                           real=[rt_[i] for i in bad], model_counts=mc, real_counts=L['tracks']))
+        else:
+            res.hist('track_model_skipped', it['stream'])
+        if 'rt' in A:
+            paths = A['rt'].split(';') if A['rt'].strip() else []
+            idxs = it['rt_nets']
+            if len(paths) != len(idxs):
+                res.broken.append(('correspondence', 'track-route-model', f"route answer has {len(paths)} polylines for {len(idxs)} nets"))
+            else:
+                for i, ptxt in zip(idxs, paths):
+                    v = [int(x) for x in ptxt.split(',') if x.strip()]
+                    mp = list(zip(v[0::2], v[1::2]))
+                    res.cov['polylines_compared'] = res.cov.get('polylines_compared', 0) + 1
+                    if mp != [tuple(q) for q in L['nets'][i]['path']]:
+                        res.disagree('track-route-model', dict(spec=sp, what='polyline', net=i, model=mp, real=L['nets'][i]['path']))
+                        break
 
     def judge(self, it, a_chk, a_place):
         res = self.res
@@ -380,6 +687,7 @@ class Batch:
             res.broken.append(('correspondence', 'layout-checker', f'unexpected answer {a_chk[:80]!r} for {key[:200]}'))
             return
         premise = f[0] == '1'
+        it['premise'] = premise
         nerr = int(f[1])
         errs = [e for e in f[2].split(';') if e]
         kinds = sorted(set((e.split(':')[2] if e.startswith('wire:') else e.split(':')[0]) for e in errs))
